@@ -233,7 +233,7 @@ REGISTRY = {
                      'PP.Tok.inC01_inRd'],
         'modules': VALUE_MODULES + ['PP.Props.Values', 'PP.Spec.Tokens', 'PP.Spec.Reader', 'PP.Proofs.Toks', 'PP.Proofs.ToksStr', 'PP.Proofs.ToksComb',
                                     'PP.Proofs.ToksVal', 'PP.Proofs.ReaderRT', 'PP.Props.C03', 'PP.Props.C01b', 'PP.Proofs.Shown',
-                                    'PP.Proofs.ShownC01', 'PP.Props.C01c'],
+                                    'PP.Proofs.ShownC01', 'PP.Props.C01c', 'PP.Props.C02', 'PP.Props.C04'],
         'sections': [{'name': 'builtin-values', 'run': values_sec('builtin_values_section')},
                      {'name': 'tokens', 'run': values_sec('tokens_section')},
                      {'name': 'reader', 'run': values_sec('reader_section', mode='c01')}],
@@ -245,7 +245,7 @@ REGISTRY = {
                      'PP.Tok.evalStr_tokens', 'PP.Tok.toDocW_ok', 'PP.C04.sound_pformat', 'PP.C02.lines_join', 'PP.C02.unescape_escape',
                      'PP.C03.nests_are_indent'],
         'modules': VALUE_MODULES + ['PP.Props.Values', 'PP.Spec.Tokens', 'PP.Proofs.Toks', 'PP.Proofs.ToksStr', 'PP.Proofs.ToksComb',
-                                    'PP.Proofs.ToksVal', 'PP.Props.C03'],
+                                    'PP.Proofs.ToksVal', 'PP.Props.C03', 'PP.Props.C02', 'PP.Props.C04'],
         'sections': [{'name': 'builtin-values', 'run': values_sec('builtin_values_section')},
                      {'name': 'tokens', 'run': values_sec('tokens_section')},
                      {'name': 'comments', 'run': values_sec('comments_section', mode='c03')},
@@ -262,7 +262,7 @@ REGISTRY = {
                      'PP.C08.dict_denotes', 'PP.C08.dict_empty_denotes', 'PP.C08.frozenset_denotes', 'PP.C08.int_denotes', 'PP.C08.str_denotes',
                      'PP.C08.float_denotes', 'PP.C08.float_special_denotes'],
         'modules': VALUE_MODULES + ['PP.Props.Values', 'PP.Spec.Tokens', 'PP.Proofs.Toks', 'PP.Proofs.ToksStr', 'PP.Proofs.ToksComb',
-                                    'PP.Proofs.ToksVal', 'PP.Props.C03', 'PP.Props.TokensMore', 'PP.Spec.Reader', 'PP.Proofs.ReaderRT', 'PP.Props.C01b', 'PP.Props.C08b'],
+                                    'PP.Proofs.ToksVal', 'PP.Props.C03', 'PP.Props.TokensMore', 'PP.Spec.Reader', 'PP.Proofs.ReaderRT', 'PP.Props.C01b', 'PP.Props.C08b', 'PP.Props.C04'],
         'sections': [{'name': 'subclasses', 'run': values_sec('subclasses_section')},
                      {'name': 'reader', 'run': values_sec('reader_section', mode='c08')}],
         'trusted': VALUE_TRUSTED,
@@ -274,7 +274,7 @@ REGISTRY = {
                      'PP.C04.sound_pformat', 'PP.C09.commentdoc_lines', 'PP.C09.empty_comment_ignored'],
         'modules': VALUE_MODULES + ['PP.Props.Values', 'PP.Spec.Tokens', 'PP.Proofs.Toks', 'PP.Proofs.ToksStr', 'PP.Proofs.ToksComb', 'PP.Proofs.ToksVal',
                                     'PP.Proofs.Shown', 'PP.Proofs.Comments', 'PP.Props.C03', 'PP.Props.C09b', 'PP.Spec.Reader', 'PP.Proofs.ReaderRT', 'PP.Props.C01b',
-                                    'PP.Props.C09c'],
+                                    'PP.Props.C09c', 'PP.Props.C04'],
         'sections': [{'name': 'comments', 'run': values_sec('comments_section')},
                      {'name': 'fresh-interpreter', 'run': values_sec('fresh_comment_section')},
                      {'name': 'tokens', 'run': values_sec('tokens_section')}],
@@ -284,7 +284,7 @@ REGISTRY = {
     'C10': {
         'theorems': ['PP.Limits.limits_tokens', 'PP.Limits.limit_that_does_not_bite', 'PP.Limits.shown_canon', 'PP.Tok.shown_ok', 'PP.Tok.wf_shown', 'PP.C03.output_tokens',
                      'PP.C04.sound_pformat', 'PP.C10.truncation_text', 'PP.C10.no_limit', 'PP.C10.large_limit'],
-        'modules': VALUE_MODULES + ['PP.Props.Values', 'PP.Spec.Tokens', 'PP.Proofs.Toks', 'PP.Proofs.ToksStr', 'PP.Proofs.ToksComb', 'PP.Proofs.ToksVal', 'PP.Proofs.Shown', 'PP.Proofs.NoBite', 'PP.Props.C03', 'PP.Props.Limits', 'PP.Props.NoLimit'],
+        'modules': VALUE_MODULES + ['PP.Props.Values', 'PP.Spec.Tokens', 'PP.Proofs.Toks', 'PP.Proofs.ToksStr', 'PP.Proofs.ToksComb', 'PP.Proofs.ToksVal', 'PP.Proofs.Shown', 'PP.Proofs.NoBite', 'PP.Props.C03', 'PP.Props.Limits', 'PP.Props.NoLimit', 'PP.Props.C04'],
         'sections': [{'name': 'truncation', 'run': values_sec('truncation_section')},
                      {'name': 'tokens', 'run': values_sec('tokens_section', limits=True)}],
         'trusted': VALUE_TRUSTED,
@@ -293,7 +293,7 @@ REGISTRY = {
     'C11': {
         'theorems': ['PP.Limits.limits_tokens', 'PP.Limits.limit_that_does_not_bite', 'PP.Limits.shown_canon', 'PP.Tok.shown_ok', 'PP.Tok.wf_shown', 'PP.C03.output_tokens',
                      'PP.C04.sound_pformat', 'PP.C11.depth_zero_placeholder', 'PP.C11.unlimited_never_zero'],
-        'modules': VALUE_MODULES + ['PP.Props.Values', 'PP.Spec.Tokens', 'PP.Proofs.Toks', 'PP.Proofs.ToksStr', 'PP.Proofs.ToksComb', 'PP.Proofs.ToksVal', 'PP.Proofs.Shown', 'PP.Proofs.NoBite', 'PP.Props.C03', 'PP.Props.Limits', 'PP.Props.NoLimit'],
+        'modules': VALUE_MODULES + ['PP.Props.Values', 'PP.Spec.Tokens', 'PP.Proofs.Toks', 'PP.Proofs.ToksStr', 'PP.Proofs.ToksComb', 'PP.Proofs.ToksVal', 'PP.Proofs.Shown', 'PP.Proofs.NoBite', 'PP.Props.C03', 'PP.Props.Limits', 'PP.Props.NoLimit', 'PP.Props.C04'],
         'sections': [{'name': 'depth', 'run': values_sec('depth_section')},
                      {'name': 'tokens', 'run': values_sec('tokens_section', limits=True)}],
         'trusted': VALUE_TRUSTED,
@@ -305,7 +305,7 @@ REGISTRY = {
                      'PP.C17.hidden_field_rebuilt_from_default', 'PP.C17.instance_tokens', 'PP.C17.output_reads_back', 'PP.C17.call_denotes',
                      'PP.C17.kwargs_denote', 'PP.Tok.canon_reads'],
         'modules': VALUE_MODULES + ['PP.Props.Values', 'PP.Spec.Tokens', 'PP.Proofs.Toks', 'PP.Proofs.ToksStr', 'PP.Proofs.ToksComb',
-                                    'PP.Proofs.ToksVal', 'PP.Props.C03', 'PP.Props.TokensMore', 'PP.Model.Fields', 'PP.Props.C17b', 'PP.Spec.Reader', 'PP.Proofs.ReaderRT', 'PP.Props.C01b', 'PP.Props.C08b'],
+                                    'PP.Proofs.ToksVal', 'PP.Props.C03', 'PP.Props.TokensMore', 'PP.Model.Fields', 'PP.Props.C17b', 'PP.Spec.Reader', 'PP.Proofs.ReaderRT', 'PP.Props.C01b', 'PP.Props.C08b', 'PP.Props.C04'],
         'sections': [{'name': 'calls', 'run': values_sec('calls_section')},
                      {'name': 'reader', 'run': values_sec('reader_section', mode='c17')},
                      {'name': 'dataclasses-attrs', 'run': simple_sec('sec_extras', 'extras_section')}],
@@ -347,7 +347,7 @@ REGISTRY = {
     'C16': {
         'theorems': ['PP.C16.strip', 'PP.C16.innermost', 'PP.C16.ends_reset', 'PP.C16.table_total', 'PP.C16.tokens_exist',
                      'PP.C16.styleOf_total', 'PP.C04.ann_balanced'],
-        'modules': ['PP.Model.Color', 'PP.Generated', 'PP.Props.C16'],
+        'modules': ['PP.Model.Color', 'PP.Generated', 'PP.Props.C16', 'PP.Props.C04'],
         'sections': [{'name': 'colour', 'run': simple_sec('sec_color', 'color_section')}],
         'rule': 'coloured rendering of values and annotated documents under every pygments style, colour forced on',
         'assumptions': ['colorful\'s SGR strings and pygments\' style_for_token are opaque to the model: `sgr t` stands for str(styleattrs_to_colorful(style_for_token(token t))); '
@@ -373,7 +373,7 @@ REGISTRY = {
                      'PP.C12.machine_quadratic', 'PP.C12.fits_linear', 'PP.C12.fits_smart_linear', 'PP.C12.fitsFastC_fst', 'PP.C12.fitsSmartC_fst',
                      'PP.C12.build_linear_partial', 'PP.C12.commented_dict_exponential', 'PP.C12.string_pieces_linear',
                      'PP.Doc.size_normalize', 'PP.C02.budget_positive'],
-        'modules': ['PP.Model.Cost', 'PP.Props.C12', 'PP.Proofs.SizeComment', 'PP.Proofs.SizeComb', 'PP.Proofs.SizeVal', 'PP.Props.C12b'],
+        'modules': ['PP.Model.Cost', 'PP.Props.C12', 'PP.Proofs.SizeComment', 'PP.Proofs.SizeComb', 'PP.Proofs.SizeVal', 'PP.Props.C12b', 'PP.Props.C02'],
         'leanchecker': True,
         'sections': [{'name': 'step-counts', 'run': simple_sec('sec_cost', 'cost_section')}],
         'rule': 'LINE events inside the package on parametrised families at n, 2n, 4n(, 8n): doubling ratios and steps <= K * model cost',
@@ -382,7 +382,7 @@ REGISTRY = {
     'C07': {
         'theorems': ['PP.C07.timedelta', 'PP.C07.timedelta_ranges', 'PP.C07.dropWhile_zero_restores', 'PP.C07.time_fields',
                      'PP.C07.datetime_date_only', 'PP.C07.chainmap_shortcut', 'PP.C07.deque_maxlen', 'PP.C04.sound_pformat', 'PP.C07.printer_inventory'],
-        'modules': VALUE_MODULES + ['PP.Model.Std', 'PP.Props.C07', 'PP.Generated', 'PP.Props.PrinterInventory'],
+        'modules': VALUE_MODULES + ['PP.Model.Std', 'PP.Props.C07', 'PP.Generated', 'PP.Props.PrinterInventory', 'PP.Props.C04'],
         'sections': [{'name': 'stdlib', 'run': simple_sec('sec_stdlib', 'stdlib_section')},
                      {'name': 'builtin-values', 'run': values_sec('builtin_values_section')}],
         'trusted': VALUE_TRUSTED,
